@@ -104,15 +104,13 @@ Definition is_binary_string (n : string) : bool := smem n binary_string_attribut
 Definition setitem (k0 : string) (v : option string) (s : st) : st * res :=
   let k := lower k0 in
   if String.eqb k "style" then
-    match v with
-    | None => (s, RExc EAttributeError)              (* StyleAttribute(None): None.strip() *)
-    | Some x =>
-        (* tag.style = StyleAttribute(x, tag): __init__ (parse, ensure) then the Tag.__setattr__ copy through str *)
-        let s1 := ensure_style (with_sty (styleToDict x) s) in
-        let s2 := assign_style (as_str (sty s1)) s1 in
-        (* ... and then dict.__setitem__(self, 'style', <raw value>) *)
-        (with_dict (od_set "style" AStyleSlot (dict s2)) s2, ROk)
-    end
+    (* StyleAttribute(None) is the empty style *)
+    let x := match v with Some x => x | None => "" end in
+    (* tag.style = StyleAttribute(x, tag): __init__ (parse, ensure) then the Tag.__setattr__ copy through str *)
+    let s1 := ensure_style (with_sty (styleToDict x) s) in
+    let s2 := assign_style (as_str (sty s1)) s1 in
+    (* ... and then dict.__setitem__(self, 'style', <raw value>) *)
+    (with_dict (od_set "style" AStyleSlot (dict s2)) s2, ROk)
   else if String.eqb k "class" then (set_className v s, ROk)
   else if is_binary_string k then (s, RExc EUnsupported)
   else (with_dict (od_set k (match v with Some x => AStr x | None => ANone end) (dict s)) s, ROk).
